@@ -23,6 +23,14 @@ KNOWN=[
  "a stale SYN(N') of an earlier connection queued ahead of the new one can make the server adopt N' (known, not fixed; no connection nonce on the wire)",
  "GoBackNConn.Close blocked while the transport's send callback held a mutex in a retry loop (fixed: FIN send awaited only up to its deadline)",
  "NewServerConn/NewClientConn return (conn, nil) when their context is cancelled mid-handshake (known quirk)",
+ "GoBackNConn.Send kept the caller's slice (buffer reuse after Send corrupted retransmissions) (fixed: Send copies)",
+ "NoiseGrpcConn.nextMsg survived into the next connection of the same credentials object (fixed)",
+ "keepalive on a full send window: pong timer started without a probe / kept running after the window freed (fixed: the queue is resent as the probe)",
+ "bounded relay mailboxes with blocking Send: GBN receive loops block sending ACKs, both directions deadlock, keepalive starved (known, not fixed)",
+ "a surplus recvNext token leaves a stale handshake reader goroutine that steals the first packet of the data phase, e.g. the peer's FIN (known, not fixed)",
+ "late SYN / SYNACK packets are fatal in the data phase ('received unexpected message') (known weakness)",
+ "half-pairing: the initiator stores the responder's key as soon as act 3 is queued; if the responder never reads act 3 the two sides wait at different rendezvous forever (known)",
+ "a lagging application blocks the GBN receive loop (FIN / pongs behind the backlog are not seen) (known, outside the properties)",
  "GBN packets are unauthenticated: a relay that forges ACKs can make a sender drop undelivered data (out of scope)",
 ]
 print(f"""You are given a git worktree of a Go repository at /tmp/wt-{pid} (lightninglabs/lightning-node-connect: a Noise/SPAKE2 encrypted gRPC transport tunnelled over a mailbox relay, with its own Go-Back-N reliable-delivery protocol; the relevant Go modules are gbn/ and mailbox/). Work ONLY inside /tmp/wt-{pid}. Do not read or touch /verif, /repo, /root/spike or any other /tmp/wt-* directory. There is no network. Use the default environment for go commands (do NOT set GOSUMDB=off or GOPROXY=off). Existing tests: `cd gbn && go test -mod=mod -vet=off -count=1 ./...` (about 20 s) and `cd mailbox && go test -mod=mod -vet=off -count=1 ./...` (about 5 s).
